@@ -53,7 +53,8 @@ package verifier
 //@   requires s.metrics != nil
 //@   ensures[C18.never-blocks] !effect("blocking")
 //@   ghostset g_trig = g_trig + 1
-//@   ensures[C18.one-report-or-drop] (traced("select:send:0") && nevent("call:metrics.Collector.IncrementCounter") == 0) || (traced("select:default") && nevent("call:metrics.Collector.IncrementCounter") == 1)
+//@   ensures[C18.one-report-or-drop] s.reportFn != nil ==> (traced("select:send:0") && nevent("call:metrics.Collector.IncrementCounter") == 0) || (traced("select:default") && nevent("call:metrics.Collector.IncrementCounter") == 1)
+//@   ensures[C18.bypass-accounts-nothing] s.reportFn == nil ==> !traced("select:send:0") && nevent("call:metrics.Collector.IncrementCounter") == 0
 
 //@ func (*LogStore).FirstIndex
 //@   props C18
